@@ -5,15 +5,16 @@
     * `safeRun_of_coreStepsCov`: `SafeRun (init p) ops` for EVERY history, from one statement about M-Core alone
       (`CoreStepsCov p`: a Core transition loses covered heights only above the forks it performs).  Everything
       about M-LC (descriptor bookkeeping of `withDescs` / `rollbackClient` / `finishUpdate`) is discharged.
-    * `stepCov_quiet`, `stepCov_update`: `StepCov` proved for every Core op except kick / fraud / obsolete /
-      end-block (the three fork sources and finalization) — state updates included, whatever their `last` flag.
+    * `stepCov_quiet`, `stepCov_update`: `StepCov` proved for every Core op except kick / fraud / obsolete
+      (the three fork sources) — state updates (whatever their `last` flag) and the end-block (finalization) included.
     * `safeRun_mild` (PARTIAL, clearly labelled): `SafeRun` outright for every history whose Core ops are not
-      kick / fraud / obsolete / end_; `agreement_inv_mild`, `later_conflict_rejected_update_mild` restate the
+      kick / fraud / obsolete; `agreement_inv_mild`, `later_conflict_rejected_update_mild` restate the
       two theorems of Props/C09 without the hypothesis for those histories.
 -/
 import DymVerif.Props.C09
 import DymVerif.Props.C01X
 import DymVerif.Lemmas.LCCovered
+import DymVerif.Lemmas.LCCoveredEnd
 
 -- ---------------------------------------------------------------- M-Core: quiet ops keep every state info
 
@@ -90,6 +91,15 @@ theorem Good.cov {c c1 : St} (g : Good c c1) (ra h : Nat) (hc : LC.Cov c ra h) :
   · rw [(eraseNext_fields ee).2.1]; exact h1
   · rw [eraseNext_last ee]; exact h2
 
+/-- the end-block (finalization + liveness events) keeps every covered height covered -/
+theorem endBlock_ck (s : St) (fails : List (Nat × Nat)) : CK s (endBlock s fails) := by
+  unfold endBlock
+  refine CK.trans ?_ (fun ra h hc => (checkLiveness_good _).cov ra h hc)
+  unfold finalizeRollappStates
+  split
+  · exact CK.refl s
+  · exact finalizeAll_ck _ _ _ _
+
 end DymVerif.Core.Fork
 
 -- ---------------------------------------------------------------- M-Core: an accepted update keeps every state info
@@ -135,8 +145,8 @@ end DymVerif.C09Safe
 namespace DymVerif.LC
 open DymVerif.Core (Addr NextP)
 
-/-- the Core ops for which `StepCov` is proved here: everything but kick / fraud / obsolete / end-block -/
-def MildCore (o : Core.Op) : Prop := Core.Fork.QuietOp o ∨ ∃ m, o = .update m
+/-- the Core ops for which `StepCov` is proved here: everything but kick / fraud / obsolete -/
+def MildCore (o : Core.Op) : Prop := Core.Fork.QuietOp o ∨ (∃ m, o = .update m) ∨ ∃ f, o = .end_ f
 
 /-- **stepCov_quiet / stepCov_update** — in every reachable Core state a mild op keeps every covered height -/
 theorem stepCov_mild (p : Core.Params) (cops : List Core.Op) (o : Core.Op) (hm : MildCore o) :
@@ -148,9 +158,12 @@ theorem stepCov_mild (p : Core.Params) (cops : List Core.Op) (o : Core.Op) (hm :
   | error er => exact hc
   | ok s1 =>
     simp only
-    rcases hm with hq | ⟨m, rfl⟩
+    rcases hm with hq | ⟨m, rfl⟩ | ⟨f, rfl⟩
     · exact (Core.Fork.apply_good_quiet (Core.Fork.run_inv p cops) ha hq).cov ra h hc
     · exact C09Safe.update_cov (Core.run_chain p cops) (Core.run_fin p cops) ha ra h hc
+    · simp only [Core.apply] at ha
+      injection ha with ha; subst ha
+      exact Core.Fork.endBlock_ck _ f ra h hc
 
 /-- the statement about M-Core alone that `SafeRun` reduces to: a Core transition from a reachable state loses
     covered heights only above the forks it performs -/
@@ -275,10 +288,10 @@ theorem safeRun_gen (p : Core.Params) (A : Core.Op → Prop)
 theorem safeRun_of_coreStepsCov (p : Core.Params) (H : CoreStepsCov p) (ops : List Op) : SafeRun (init p) ops :=
   safeRun_gen p (fun _ => True) (fun cops o _ => H cops o) ops (init p) (init_covInv p) (fun _ _ _ => trivial)
 
-/-- a history without kick / fraud proposal / obsolete marking / end-block among its Core ops -/
+/-- a history without kick / fraud proposal / obsolete marking among its Core ops -/
 def Mild (ops : List Op) : Prop := ∀ o ds, Op.core o ds ∈ ops → MildCore o
 
-/-- **safeRun_mild (PARTIAL: histories without kick / fraud / obsolete / end-block)** — `SafeRun` outright. -/
+/-- **safeRun_mild (PARTIAL: histories without kick / fraud / obsolete)** — `SafeRun` outright. -/
 theorem safeRun_mild (p : Core.Params) (ops : List Op) (hm : Mild ops) : SafeRun (init p) ops :=
   safeRun_gen p MildCore (fun cops o ho => stepCov_mild p cops o ho) ops (init p) (init_covInv p) hm
 
@@ -324,7 +337,7 @@ example : Mild ([.core (.update { ra := 0, sender := 1, start := 1, num := 3, re
   intro o ds hm
   simp only [List.mem_cons, List.mem_nil_iff, or_false] at hm
   rcases hm with hm | hm | hm
-  · injection hm with a b; subst a; exact Or.inr ⟨_, rfl⟩
+  · injection hm with a b; subst a; exact Or.inr (Or.inl ⟨_, rfl⟩)
   · cases hm
   · cases hm
 
